@@ -29,6 +29,7 @@ def run(ctx):
     proofs_ok = ctx.build_and_audit()
     spec_fail, lines, refs = [], [], []
     skipped_singular = [0]
+    pub = [0]
     dist = {}
     evals = 0
     nw = 2 if ctx.tier == "quick" else 5
@@ -77,6 +78,11 @@ def run(ctx):
             dist[kind] = dist.get(kind, 0) + 1
             ronly = kind in trials.RESTRICTED_ONLY
             ref = wf.reference_state(kind, trial, wd, desc)
+            if dist[kind] <= (2 if ctx.tier == "quick" else 99):
+                f2, n2 = wf.public_rebuild_batch(kind, trial, wd, desc, sec, psi, rng, norb, ne, "force_bias", TOL, nchol=3)
+                spec_fail.extend(f2)
+                evals += n2
+                pub[0] += n2
             for _ in range(nw):
                 Wa = wf.complex_walker(rng, norb, ne[0])
                 Wb = Wa if (ronly or (ne[0] == ne[1] and rng.random() < 0.4)) else wf.complex_walker(rng, norb, ne[1])
@@ -131,11 +137,12 @@ def run(ctx):
     ctx.cov["distinct_nontrivial"] = sum(dist.values()) + len(refs)
     ctx.cov["rule"] = ("(a) rhf (both entry points) / uhf with complex trial orbitals, 3 Cholesky matrices vs the Lean model at Q(i) (1e-9, every component); "
                        "(b) all 12 classes x supported (norb, nelec) vs the Fock-space mixed expectation of every L_g on complex walkers (1e-8), restricted "
-                       "entry on equal blocks; (c) forward-mode jvp and central finite difference of the library's overlap along expm(x L_g)")
+                       "entry on equal blocks; (c) forward-mode jvp and central finite difference of the library's overlap along expm(x L_g); (d) public build_measurement_intermediates on an "
+                       "already prepared dictionary, then batched calc_force_bias with n_batch in {1,2,3} on 6 distinct walkers")
     ctx.cov["samples"] = [lines[0][:300], json.dumps(dist)]
     ctx.cov["distribution"] = dist
     ctx.cov["skipped"] = {"walkers_with_vanishing_reference_overlap": skipped_singular[0]}
-    ctx.cov["correspondence"] = {"lean_model_cases": len(refs), "mismatches": len(mism), "spec_evaluations": evals}
+    ctx.cov["correspondence"] = {"lean_model_cases": len(refs), "mismatches": len(mism), "spec_evaluations": evals, "public_rebuilt_batched_evaluations": pub[0]}
     ctx.assumptions += ["jax.vjp / jax.jvp return derivatives of the traced function", "theorem layer covers rhf/uhf; other kinds validated against the Fock-space expectation"]
     if mism:
         ctx.broken.append({"kind": "correspondence", "first": mism[:3], "count": len(mism)})
